@@ -1,0 +1,15 @@
+//go:build verif
+
+// Contracts for the deductive verifier in /verif (govc); comments only.
+package main
+
+//@ func (*termMonitor).wait(m, termOnNoHandlers) (sig)
+//@   serves C19
+//@   modifies m.numHandlers, blocked, star(m.handlerChan), star(m.sigChan)
+//@   loop 1 invariant [C19:count_is_sum] m.numHandlers == old(m.numHandlers) + recvsum(m.handlerChan) - old(recvsum(m.handlerChan))
+//@   loop 1 invariant recvcount(m.sigChan) == old(recvcount(m.sigChan))
+//@   loop 1 invariant blocked >= old(blocked)
+//@   assert_at select [C19:idle_shutdown_immediate] !(termOnNoHandlers && m.numHandlers == 0)
+//@   ensures [C19:count_is_sum] m.numHandlers == old(m.numHandlers) + recvsum(m.handlerChan) - old(recvsum(m.handlerChan))
+//@   ensures [C19:term_on_zero] recvcount(m.sigChan) == old(recvcount(m.sigChan)) ==> termOnNoHandlers && m.numHandlers == 0
+//@   ensures [C19:signal_returned_at_once] recvcount(m.sigChan) <= old(recvcount(m.sigChan)) + 1
